@@ -46,7 +46,7 @@ pub fn c03(ctx: &mut Ctx) {
 pub fn c04(ctx: &mut Ctx) {
     setup(ctx, "BYE: full product sources 0..=31 x reason length 0..=255 x all 64 paddings; APP: SSRC x subtype 0..=31 x names of 0..=4 bytes x payload sizes x all paddings");
     ctx.bound("bye", "32 x 256 x 64 complete");
-    ctx.bound("app ssrc", ctx.tier.pick("edge alphabet (8)", "walk alphabet (70)"));
+    ctx.bound("app ssrc", ctx.tier.pick("edge alphabet (8)", "walk alphabet (79)"));
     let mut spaces = gens::bye_spaces(ctx.tier, ctx.seed);
     spaces.extend(gens::app_spaces(ctx.tier, ctx.seed));
     run_cfg_spaces(ctx, spaces, |p, idx, l| {
